@@ -24,7 +24,8 @@ ASSUMES = ['defaults, lags, variant values and call arguments are numbers (int/f
            'f32 rounding of control values by struct is trusted (cases use f32-representable dyadics)']
 
 RATES = ['ir', 'tr', 'ar', 'kr']
-THEOREM_OF = {'C04:call-positional-prepend': 'call_maps_args', 'C04:call-positional-wrap': 'call_maps_args',
+THEOREM_OF = {'C04:prepend-values': 'prepend_skips', 'C04:default-type-changed': 'ctl_defaults_in_array', 'C04:negative-zero': 'bytes_carry_layout',
+              'C04:call-positional-prepend': 'call_maps_args', 'C04:call-positional-wrap': 'call_maps_args',
               'C04:call-positional-other': 'call_maps_args', 'C04:variants-invalid-truncated': 'variants_layout',
               'C04:variants-layout': 'variants_layout', 'C04:lag-list-on-one-slot-control': 'ctl_layout',
               'C04:layout': 'ctl_layout', 'C04:lags': 'ctl_lags', 'C04:name-table': 'ctl_layout'}
@@ -33,19 +34,52 @@ SIGS = {1: 'C04:call-positional-names', 2: 'C04:variants-invalid-truncated', 4: 
 
 # ------------------------------------------------------------------ generator
 def gnum(rng, lag=False):
-    """[fraction-string, is_int]: f32-representable dyadic"""
+    """[fraction-string, kind]: f32-representable dyadic; kind True = int, False = float,
+    'b' = bool, 'nz' = float -0.0.  Explicit falsy zeros of every type are over-represented."""
     r = rng.random()
     if lag:
         if r < 0.25:
-            return ['0', rng.random() < 0.5]
+            return ['0', rng.choice([True, False, 'nz'])]
         if r < 0.5:
             return [str(rng.randint(1, 4)), rng.random() < 0.5]
         return [str(Fraction(rng.randint(1, 64), 1 << rng.randint(1, 6))), False]
-    if r < 0.4:
+    if r < 0.14:
+        return ['0', rng.choice([True, False, 'b', 'nz'])]
+    if r < 0.17:
+        return ['1', 'b']
+    if r < 0.45:
         return [str(rng.randint(-64, 64)), True]
-    if r < 0.5:
-        return [str(rng.choice([0, 1, 440, -1])), rng.random() < 0.5]
+    if r < 0.52:
+        return [str(rng.choice([1, 440, -1])), rng.random() < 0.5]
     return [str(Fraction(rng.randint(-4096, 4096), 1 << rng.randint(0, 6))), False]
+
+
+def kindtag(x):
+    """expected type tag (as harness/impl/c04_build.py:tag reports it) of a generated number"""
+    fr_, kind = Fraction(x[0]), x[1]
+    if kind == 'b':
+        return 'b'
+    if kind == 'nz':
+        return 'f-'
+    if kind is True and fr_.denominator == 1:
+        return 'i'
+    return 'f'
+
+
+PRE_POOL = [['n', '0', True], ['n', '0', False], ['n', '0', 'b'], ['n', '0', 'nz'], ['none'], ['str'], ['tuple'], ['list'],
+            ['n', '5', True], ['n', '1/2', False], ['str1'], ['tuple2']]
+PRE_SCALAR_POOL = [['n', '0', True], ['n', '0', False], ['n', '0', 'b'], ['str'], ['tuple'], ['n', '5', True], ['str1'], ['tuple2']]
+
+
+def gen_prepend_vals(rng, count):
+    """explicit prepend argument: None = the default stand-in floats; a list of `count` arbitrary
+    (also falsy) objects; for count 1 also a bare non-list object (utils.as_list wraps it)"""
+    r = rng.random()
+    if r < 0.4:
+        return None
+    if count == 1 and r < 0.6:
+        return ['scalar', rng.choice(PRE_SCALAR_POOL)]
+    return ['list', [rng.choice(PRE_POOL) for _ in range(count)]]
 
 
 class Namer:
@@ -145,10 +179,66 @@ def gen_sig(rng, namer, nmax, depth, malformed):
                     if p['default'][0] != 't':
                         p['annot'] = rng.choice(['ir', 'tr', 'ar'])
     wraps = []
-    if depth < 2 and rng.random() < (0.35 if depth == 0 else 0.2):
+    if depth < 2 and rng.random() < (0.35 if depth == 0 else 0.25):
         for _ in range(rng.randint(1, 2)):
-            wraps.append(gen_sig(rng, namer, max(1, nmax // 2), depth + 1, malformed and rng.random() < 0.3))
-    return {'params': params, 'rates': rates, 'prepend': prepend, 'wraps': wraps}
+            r = rng.random()
+            if r < 0.12:
+                # a wrapped function whose signature is refused; the body catches the error and goes on
+                w = gen_sig(rng, namer, max(1, nmax // 2), 2, False)
+                w['wraps'] = []
+                if not w['params']:
+                    w['params'] = [{'name': namer.new(rng, False), 'kind': 'pok', 'annot': None, 'default': ['None']}]
+                w['prepend'], w['prepend_vals'] = 0, None
+                k = rng.randrange(3)
+                if k == 0:
+                    w['params'][-1]['annot'] = rng.choice(['bad_float', 'bad_num', 'bad_str'])
+                elif k == 1:
+                    w['params'][-1]['default'] = ['nested', rng.randrange(3)]
+                else:
+                    w['params'][-1]['kind'] = 'kwonly'
+                w['fail'] = 'caught_sig'
+            elif r < 0.2:
+                # a wrapped function whose body raises after its controls were built; caught by the caller
+                w = gen_sig(rng, namer, max(1, nmax // 2), depth + 1, False)
+                w['fail'] = 'caught_body'
+            else:
+                w = gen_sig(rng, namer, max(1, nmax // 2), depth + 1, malformed and rng.random() < 0.3)
+            wraps.append(w)
+    pv = gen_prepend_vals(rng, prepend) if 0 < prepend <= n else (['list', []] if prepend == 0 and rng.random() < 0.1 else None)
+    return {'params': params, 'rates': rates, 'prepend': prepend, 'prepend_vals': pv, 'wraps': wraps}
+
+
+def model_tree(t):
+    """the tree the model is given: wraps refused at the signature (and caught) leave nothing behind"""
+    return {'params': t['params'], 'rates': t['rates'], 'prepend': t['prepend'], 'prepend_vals': t.get('prepend_vals'),
+            'wraps': [model_tree(w) for w in t['wraps'] if w.get('fail') != 'caught_sig']}
+
+
+def model_case(case):
+    m = dict(case)
+    m['tree'] = model_tree(case['tree'])
+    return m
+
+
+def nodes(t):
+    yield t
+    for w in t['wraps']:
+        yield from nodes(w)
+
+
+def uncaught_nodes(t):
+    """functions whose exceptions nobody catches (not inside a wrap that the caller guards)"""
+    yield t
+    for w in t['wraps']:
+        if not w.get('fail'):
+            yield from uncaught_nodes(w)
+
+
+def raises_uncaught(case):
+    for t in nodes(case['tree']):
+        if t.get('raise_body'):
+            return t['raise_body']
+    return None
 
 
 def control_params(tree):
@@ -162,8 +252,13 @@ def gen_case(rng, idx, nmax, malformed=False):
     namer = Namer()
     tree = gen_sig(rng, namer, nmax, 0, malformed)
     name = 'c04_%d' % idx
-    cps = control_params(tree)
+    cps = control_params(model_tree(tree))
     case = {'name': name, 'tree': tree, 'specs': None, 'variants': None, 'calls': []}
+    if not malformed and rng.random() < 0.04:
+        # the body of some function raises and nobody catches it: the build fails; what is left behind?
+        rng.choice(list(uncaught_nodes(tree)))['raise_body'] = rng.choice(['exc', 'base'])
+    if rng.random() < 0.1:
+        case['empty_dicts'] = True
     if rng.random() < 0.35:
         specs = []
         for p in cps:
@@ -207,8 +302,8 @@ def gen_case(rng, idx, nmax, malformed=False):
     for ci in range(2):
         na = rng.randint(0, len(outer) + 1) if ci else rng.randint(1, max(1, len(outer)))
         kw = []
-        for _ in range(rng.randint(0, 2)):
-            k = rng.choice(allnames) if allnames and rng.random() < 0.85 else 'other'
+        for _ in range(rng.choice([0, 1, 2, 2, 4])):
+            k = rng.choice(allnames) if allnames and rng.random() < 0.8 else rng.choice(['other', 'zz', 'aa'])
             if k not in [x[0] for x in kw]:
                 kw.append([k, gnum(rng)])
         case['calls'].append({'args': [gnum(rng) for _ in range(na)], 'kwargs': kw})
@@ -256,6 +351,45 @@ def battery():
                             rates=[['lag', '1/8', False], None, ['lags', [['1/4', False], ['0', True]]]])),
         case('b_empty_alone', sig([P('a', None, ['t', []])])),
         case('b_empty_shared', sig([P('a', None, ['t', []]), P('b', None, T(2, 3))], rates=[['lag', '1/8', False], ['lag', '1/4', False]])),
+        # falsy-zero defaults of every type, with a spec that must NOT replace them, and None defaults that it must
+        case('b_falsy_specs', sig([P('a', None, ['s', '0', True]), P('b', None, ['s', '0', False]), P('c', None, ['s', '0', 'b']),
+                                   P('d', None, ['s', '0', 'nz']), P('e', None, ['None']), P('f', None, ['None']),
+                                   P('g', 'ir', ['t', [['0', True], ['0', 'nz'], ['0', 'b']]])],
+                                  rates=[['lag', '0', True], ['lag', '0', False], 'kr', None, ['lags', [['0', True], ['0', False]]]]),
+             specs=[[n, ['7', True]] for n in 'abcdg'] + [['e', ['0', True]]],
+             variants=[['z', [['a', ['s', '0', False]], ['g', ['l', [['0', True], ['0', 'nz']]]]]], ['y', [['e', ['s', '0', 'nz']]]]],
+             calls=[{'args': [['0', True], ['0', False], ['0', 'b']], 'kwargs': [['f', ['0', True]], ['zz', ['0', False]], ['a', ['0', 'nz']]]}]),
+        case('b_prepend_scalar0', sig([P('a'), P('freq', None, S(440))], prepend=1) | {'prepend_vals': ['scalar', ['n', '0', True]]},
+             calls=[{'args': [['330', True]], 'kwargs': []}]),
+        case('b_prepend_falsy', sig([P('a'), P('b'), P('c'), P('freq', None, S(440))], prepend=3)
+             | {'prepend_vals': ['list', [['n', '0', True], ['none'], ['list']]]}),
+        case('b_prepend_emptylist', sig([P('freq', None, S(440))]) | {'prepend_vals': ['list', []]}, empty_dicts=True),
+        # LagControl clumps at exactly 16 / 17 / 32 / 33 kr slots; arrays of 1, 2, 16, 17 in every rate group
+        case('b_kr16', sig([P('a', None, T(*range(1, 16))), P('b', None, S(5))], rates=[['lag', '1/8', False]])),
+        case('b_kr17', sig([P('a', None, T(*range(1, 17))), P('b', None, S(5))], rates=[None, ['lag', '1/8', False]])),
+        case('b_kr33', sig([P('a', None, T(*range(16))), P('b', None, T(*range(17))), P('c', None, S(9))],
+                           rates=[['lags', [['1/8', False], ['0', True], ['1/4', False]]], ['lag', '1/2', False]])),
+        case('b_arrays_everywhere', sig([P('i1', 'ir', T(1)), P('k1', None, T(*range(17))), P('t1', 'tr', T(*range(16))), P('a1', 'ar', T(1, 2)),
+                                         P('i2', 'ir', T(*range(17))), P('t2', 'tr', T(3)), P('a2', 'ar', T(*range(16))), P('k2', None, T(4, 5)),
+                                         P('i3', 'ir', S(6)), P('t3', 'tr', S(7)), P('a3', 'ar', S(8)), P('k3', None, S(9))],
+                                        rates=[None, ['lag', '1/8', False]]),
+             variants=[['v', [['k2', ['l', [['0', True]]]], ['a2', ['l', [['1', True]] * 16]], ['i3', S(0)]]]]),
+        case('b_45params', sig([P('p%d' % i, [None, 'ir', 'tr', 'ar', 'kr'][i % 5], T(i, i + 1) if i % 3 == 0 else S(i)) for i in range(45)],
+                               rates=[None, 'ar', ['lag', '1/4', False]] * 15),
+             calls=[{'args': [[str(i), True] for i in range(45)], 'kwargs': [['p44', ['0', True]], ['p0', ['1', True]]]}]),
+        # variant names: the 32-character limit applies to 'defname.key' (31, 32 valid; 33 invalid)
+        case('b_vname', sig([P('a', None, S(1))]),
+             variants=[['k' * 23, [['a', S(2)]]], ['m' * 24, [['a', S(3)]]], ['n' * 25, [['a', S(4)]]], ['o', [['a', S(5)]]]]),
+        # wrap nested two levels deep, a refused wrap and a raising wrap caught by the body, then another wrap
+        case('b_wrap_deep', sig([P('freq', None, S(440)), P('amp', None, S('1/8', False))], wraps=[
+            sig([P('x1', 'ar', T(1, 2))], wraps=[sig([P('y1', 'ir', S(3)), P('y2', None, S(4))], rates=[None, ['lag', '1/2', False]])]),
+            sig([P('bad', 'bad_float', S(1))]) | {'fail': 'caught_sig'},
+            sig([P('z1', 'tr', S(5))], wraps=[sig([P('w1', None, S(6))])]) | {'fail': 'caught_body'},
+            sig([P('u1', None, T(7, 8))])]),
+             calls=[{'args': [['330', True], ['1/2', False], ['9', True]], 'kwargs': [['u1', ['0', True]], ['y1', ['1', True]]]}],
+             variants=[['v', [['w1', S(0)], ['u1', ['l', [['0', True], ['0', 'nz']]]]]]]),
+        case('b_raise_exc', sig([P('a', None, S(1))], wraps=[sig([P('b', None, S(2))]) | {'raise_body': 'exc'}])),
+        case('b_raise_base', sig([P('a', None, S(1))]) | {'raise_body': 'base'}),
         case('b_lagshort', sig([P('a', None, T(1, 2, 3)), P('b', None, T(4, 5))],
                                rates=[['lags', [['1/8', False], ['1/4', False]]], ['lags', [['1/2', False], ['3/4', False], ['1', True]]]])),
     ]
@@ -346,6 +480,7 @@ def c_vals(v):
 
 
 def c_case(case, o):
+    case = model_case(case)
     specs = clist(case.get('specs') or [], lambda s: '(%s, %s)' % (cstr(s[0]), qn(s[1])))
     vs = clist(case.get('variants') or [], lambda v: '(%s, %s)' % (cstr(v[0]), clist(v[1], lambda p: '(%s, %s)' % (cstr(p[0]), c_vals(p[1])))))
     if o['err'] == 0:
@@ -397,6 +532,98 @@ def bytes_agree(case, o):
     return None
 
 
+# ------------------------------------------------------------------ python-side monitors (bug classes 1, 2, 4)
+def enc_expected(v):
+    return ['n', '%d/%d' % (Fraction(v[1]).numerator, Fraction(v[1]).denominator), kindtag(v[1:])] if v[0] == 'n' else [v[0]]
+
+
+def expected_pre(t):
+    pv = t.get('prepend_vals')
+    if pv is None:
+        return [['n', '%d/1' % (1000 + i), 'f'] for i in range(t['prepend'])]
+    vals = [pv[1]] if pv[0] == 'scalar' else pv[1]
+    return [enc_expected(v) for v in vals]
+
+
+def expected_caught(t, acc):
+    for w in t['wraps']:
+        if w.get('fail') == 'caught_sig':
+            acc.append('ValueError')
+        elif w.get('fail') == 'caught_body':
+            expected_caught(w, acc)
+            acc.append('C04Body')
+        else:
+            expected_caught(w, acc)
+    return acc
+
+
+def default_tags(case, p):
+    d = p['default']
+    if d[0] == 's':
+        return [kindtag(d[1:])]
+    if d[0] == 't':
+        return [kindtag(x) for x in d[1]]
+    for n, v in (case.get('specs') or []):
+        if n == p['name']:
+            return [kindtag(v)]
+    return ['f']
+
+
+def side_checks(case, o):
+    """monitors that do not go through the Coq model: exact types of the values (falsy zeros), what the
+    prepended parameters received, release of the build context on every exit path, arguments left alone"""
+    bad = []
+    rb = raises_uncaught(case)
+    if 'ctx_clear' in o and not (o['ctx_clear'] and o['lock_free']):
+        bad.append(('C04:build-context-leak', 'after %s: main._current_synthdef cleared=%s, build lock free=%s, a unit created afterwards outside any build is attached to the dead definition=%s' % (
+            'the build raised %s' % o.get('errtext') if o['err'] else 'a successful build', o['ctx_clear'], o['lock_free'], o.get('stale_attach'))))
+    if o.get('args_mutated'):
+        bad.append(('C04:arguments-mutated', 'the rates/prepend/variants/metadata objects passed by the caller were modified: before %s after %s' % (o.get('before'), o.get('after'))))
+    if rb:
+        if o['err'] != (7 if rb == 'exc' else 8):
+            bad.append(('C04:body-exception', 'an exception raised by the body (%s) did not propagate: %s %s' % (rb, o['err'], o.get('errtext'))))
+        return bad
+    if o['err'] != 0:
+        return bad
+    m = model_case(case)
+    fs = list(oracle.preorder(m['tree']))
+    pre = o.get('pre', [])
+    if len(pre) == len(fs):
+        for f, got in zip(fs, pre):
+            if f['prepend'] <= len(f['params']) and got != expected_pre(f):
+                bad.append(('C04:prepend-values', 'the prepended parameters received %s, prepend was %s' % (got, expected_pre(f))))
+                break
+    if o.get('caught') != expected_caught(case['tree'], []):
+        bad.append(('C04:failed-wrap', 'wraps caught by the body: %s, expected %s' % (o.get('caught'), expected_caught(case['tree'], []))))
+    cps = control_params(m['tree'])
+    tags = o.get('controls_tags', [])
+    negz = []
+    if len(cps) == len(o['all']):
+        for p, g in zip(cps, o['all']):
+            want = default_tags(case, p)
+            got = tags[g[1]:g[1] + len(g[3])]
+            if len(want) == len(g[3]) and got != want:
+                bad.append(('C04:default-type-changed', 'parameter %s: the control array holds values of types %s, the declared defaults have %s' % (g[0], got, want)))
+                break
+            negz += [g[1] + j for j, t in enumerate(want) if t == 'f-']
+        v = o.get('variants') or {}
+        if not bad and not v.get('raised') and 'controls_negzero' in v:
+            if sorted(v['controls_negzero']) != sorted(set(negz)):
+                bad.append(('C04:negative-zero', 'slots holding -0.0 in the bytes: %s, declared: %s' % (v['controls_negzero'], sorted(set(negz)))))
+            byname = {g[0]: g for g in o['all']}
+            for (vn, pairs), gotz in zip(case.get('variants') or [], v.get('written_negzero', [])):
+                z = set(negz)
+                known = all(cn in byname for cn, _ in pairs)
+                for cn, vals in (pairs if known else []):
+                    xs = [vals[1:]] if vals[0] == 's' else vals[1]
+                    for j, x in enumerate(xs):
+                        (z.add if kindtag(x) == 'f-' else z.discard)(byname[cn][1] + j)
+                if known and sorted(z) != sorted(gotz):
+                    bad.append(('C04:negative-zero', 'variant %s: slots holding -0.0 in the bytes %s, expected %s' % (vn, gotz, sorted(z))))
+                    break
+    return bad
+
+
 # ------------------------------------------------------------------ stages
 def make_cases(ctx):
     cases = list(battery())
@@ -417,9 +644,12 @@ def correspond(ctx):
     cases = make_cases(ctx)
     out = ctx.impl('c04_build', {'cases': cases}, timeout=900)['out']
     ctx.c04 = (cases, out)
-    items = [c_case(k, o) for k, o in zip(cases, out)]
+    idxmap = [i for i, k in enumerate(cases) if not raises_uncaught(k)]
+    items_all = {i: c_case(cases[i], out[i]) for i in idxmap}
+    items = [items_all[i] for i in idxmap]
     body = 'Eval vm_compute in bad_idx (check_case fixed) cases.'
     bad, errs = fw.check_shards(ctx, 'lay', HEADER, items, body, shard=ctx.n(40, 100))
+    bad = [idxmap[i] for i in bad]
     c.evaluations = len(cases)
     for k, o in zip(cases, out):
         nctl = len(o.get('all', []))
@@ -449,6 +679,7 @@ def correspond(ctx):
         c.failures.append(Failure('correspondence', 'coq evaluation of layout cases failed: ' + e))
     # python-side tie of the bytes to the definition
     badset = set(bad)
+    side = {}
     for i, (k, o) in enumerate(zip(cases, out)):
         if o['err'] == 98:
             c.failures.append(Failure('correspondence', 'harness could not run case: ' + o.get('errtext', ''), replay={'case': k, 'impl': o}))
@@ -458,17 +689,35 @@ def correspond(ctx):
             c.failures.append(Failure('correspondence', msg, replay={'case': k, 'impl': o}))
         if o['err'] == 0 and not o.get('units_kept', True):
             c.failures.append(Failure('correspondence', 'a control unit created during the build is missing from the final graph', replay={'case': k}))
+        for sig, text in side_checks(k, o):
+            size = (0 if k['name'].startswith('b_') else 1, len(json.dumps(k)))
+            if sig not in side or size < side[sig][0]:
+                side[sig] = (size, Failure('correspondence', 'property fails on the implementation for %s: %s' % (k['name'], text),
+                                           signature=sig, replay={'case': k, 'impl': o, 'violation': text}, found_input=True,
+                                           theorem=THEOREM_OF.get(sig)))
+    c.failures.extend(f for _, f in side.values())
+    for k in cases:
+        for t in nodes(k['tree']):
+            if t.get('fail'):
+                c.count('wrap:' + t['fail'])
+            if t.get('raise_body'):
+                c.count('raise:' + t['raise_body'])
+            if t.get('prepend_vals'):
+                c.count('prepend:' + t['prepend_vals'][0])
     # attribute each disagreement to the snapshot defects that explain it
     if bad:
         sub = bad[:60]
-        rc, txt = ctx.coq('attr', HEADER + 'Definition cases := [\n' + ';\n'.join(items[i] for i in sub) + '\n].\nEval vm_compute in map attribute cases.\n')
+        rc, txt = ctx.coq('attr', HEADER + 'Definition cases := [\n' + ';\n'.join(items_all[i] for i in sub) + '\n].\nEval vm_compute in map attribute cases.\n')
         codes = fw.parse_nat_list(txt) if rc == 0 else None
         if codes is None:
             codes = [8] * len(sub)
         by_sig = {}
         for i, code in zip(sub, codes):
             k, o = cases[i], out[i]
-            ob = oracle.check(k, o)
+            ob = oracle.check(model_case(k), o)
+            if any(t.get('prepend_vals') and t['prepend_vals'][0] == 'scalar' and t['prepend_vals'][1] in
+                   (['n', '0', True], ['n', '0', False], ['n', '0', 'b'], ['str'], ['tuple']) for t in nodes(k['tree'])):
+                ob = [('C04:prepend-falsy-object', text) for _, text in ob]
             if 0 < code < 8:
                 what = 'implementation agrees with the snapshot model, not with the repaired one (model defects: %s)' % '+'.join(SIGS[b] for b in (1, 2, 4) if code & b)
             elif code == 0:
@@ -508,7 +757,7 @@ def search(ctx, failures):
     for i, (k, o) in enumerate(zip(cases, out)):
         if o['err'] == 98:
             continue
-        for sig, text in oracle.check(k, o):
+        for sig, text in ([] if raises_uncaught(k) else oracle.check(model_case(k), o)) + side_checks(k, o):
             size = (0 if k['name'].startswith('b_') else 1, len(json.dumps(k)))
             if sig not in best or size < best[sig][0]:
                 best[sig] = (size, Failure('search', 'property fails on the implementation for %s: %s' % (k['name'], text),
@@ -520,6 +769,6 @@ def search(ctx, failures):
 def replay(ctx, rp):
     k = rp['replay']['case']
     o = ctx.impl('c04_build', {'cases': [k]})['out'][0]
-    v = oracle.check(k, o)
+    v = ([] if raises_uncaught(k) else oracle.check(model_case(k), o)) + side_checks(k, o)
     print(json.dumps({'case': k['name'], 'impl': o, 'violations': v}, indent=1, default=str))
     return 1 if v else 0
